@@ -286,7 +286,63 @@ def run_check(prop, spec, tier, replay=None):
     stats = Stats()
     out_lines = []
     if replay:
-        md, cfg, ops = load_replay(replay)
+        raw = json.load(open(replay))
+        if "proof_errors" in raw or "correspondence_mismatches" in raw:
+            # a no-failing-input-found report: it names the theorems / correspondence cases that no longer check
+            print(json.dumps({k: raw.get(k) for k in ("proof_errors", "undischarged")}, indent=1, default=str))
+            print("this replay names broken obligations, not an input: run ./check %s --tier quick to re-check them" % prop)
+            return 0
+        if raw.get("cfg") == "puml":
+            # a PlantUML line or whole description: the library's own functions against the transcription
+            import pumlcheck, subprocess
+            text = "".join(raw["ops"][0])
+            exe, err = pumlcheck.build_probe()
+            if exe is None:
+                print(err); print("VIOLATION property=%s replay=%s" % (prop, replay)); return 1
+            whole = ("\n" in text) or raw.get("machine") == "puml description"
+            mode = ["stt"] if whole else []
+            inp = (text.replace("\n", "\x1e") if whole else text) + "\n"
+            a = subprocess.run([exe] + mode, input=inp, capture_output=True, text=True, timeout=120).stdout.split("\n")[0]
+            b = subprocess.run([corr.MODEL, "stt" if whole else "puml"], input=inp, capture_output=True, text=True, timeout=120).stdout.split("\n")[0]
+            if a.endswith("THROW"):
+                a = "THROW"
+            print(json.dumps({"text": text, "library": a, "transcription": b}, indent=1))
+            if a != b and a != "THROW":
+                print("VIOLATION property=%s replay=%s" % (prop, replay))
+                return 1
+            return 0
+        if raw.get("cfg") == "store":
+            # a history of basic_polymorphic operations: object ledger of the library (ASan / UBSan build) against the model
+            import storecheck, subprocess
+            exe, err = storecheck.build_probe()
+            if exe is None:
+                print(err); print("VIOLATION property=%s replay=%s" % (prop, replay)); return 1
+            env = dict(os.environ, ASAN_OPTIONS="detect_leaks=1:abort_on_error=0", UBSAN_OPTIONS="print_stacktrace=1")
+            types = subprocess.run([exe], input="TYPES\n", capture_output=True, text=True, env=env).stdout
+            tlines = [l for l in types.splitlines() if l.startswith("TYPE ")]
+            sops = ["".join(o) for o in raw["ops"]]
+            model = subprocess.run([corr.MODEL, "store"], input="\n".join(tlines + sops) + "\n", capture_output=True, text=True, timeout=60).stdout.splitlines()
+            ok_ops = [o for o, m in zip(sops, model) if m != "SKIP"]
+            exp = [m for m in model if m != "SKIP"]
+            rr = subprocess.run([exe], input="\n".join(ok_ops) + "\n", capture_output=True, text=True, env=env, timeout=60)
+            got = rr.stdout.splitlines()
+            end = got[-1] if got else ""
+            bad = rr.returncode != 0 or "ERROR" in rr.stdout or "CORRUPT" in rr.stdout or "runtime error" in rr.stderr or \
+                "AddressSanitizer" in rr.stderr or not end.startswith("END live 0 errors 0") or got[:-1] != exp
+            print(json.dumps({"operations": len(ok_ops), "library_end": end, "agrees_with_model": got[:-1] == exp, "stderr": rr.stderr[-400:]}, indent=1))
+            if bad:
+                print("VIOLATION property=%s replay=%s" % (prop, replay))
+                return 1
+            return 0
+        try:
+            md, cfg, ops = load_replay(replay)
+            if not isinstance(md, dict) or "root" not in md:
+                raise ValueError("not an engine-level replay")
+        except (ValueError, IndexError, KeyError, TypeError) as e:
+            # e.g. a whole PlantUML machine or a front-end probe: these are generated deterministically from the seed and
+            # the pinned lists, so the property's quick check re-runs them on the current tree
+            print("replay %s is not an engine-level history (%s): running the quick check of %s, which contains it" % (replay, e, prop))
+            return run_check(prop, spec, "quick", None)
         r = corr.compare(md, cfg, ops)
         print(json.dumps({"ok": r["ok"], "first_diff": r.get("first_diff")}, indent=1, default=str))
         mv = spec["monitor"](r["root_lib"], cfg, ops, r["impl"], stats, r) if spec.get("monitor") and r.get("impl") else []
